@@ -18,6 +18,11 @@ def run(ctx):
     r2 = vlib.run_tlc(ctx.sc, "MC_Rule", "Gen_Rule_sched.cfg", collect_json=True, workers=1, simulate=n2, depth=12,
                       seed=ctx.seed, timeout=3000)
     behs += diverse(r2.lines, n2, steps_of=lambda b: b["steps"], seed=ctx.seed)
+    # feedback: a condition watches the point the rule's own set-value action writes
+    n3 = 10 if t == "quick" else 120
+    r3 = vlib.run_tlc(ctx.sc, "MC_Rule", "Gen_Rule_feedback.cfg", collect_json=True, workers=1, simulate=n3, depth=12,
+                      seed=ctx.seed, timeout=3000)
+    behs += diverse(r3.lines, n3, steps_of=lambda b: b["steps"], seed=ctx.seed)
     if not behs:
         raise vlib.MachineryError("Gen_Rule printed nothing")
     p = ctx.sc.path("c13.jsonl")
